@@ -26,6 +26,7 @@ THEOREMS = ["SleapVerif.C01." + t for t in [
     "cm_antitone_dist_cross", "multi_argmax_nearest", "flatten_channel_index", "cm4_value",
     "multi_batch_independent", "multi_batch_value", "centroid_batch_independent", "cm_batch_independent",
     "multi_batch_asIs_single", "multi_batch_asIs_counterexample",
+    "passes_independent", "dp_passes_independent",
 ]]
 
 TOL = 2e-6          # float32 implementation vs float64 model: observed noise ≤ ~1.2e-7 (evidence: max_abs_diff)
@@ -139,6 +140,9 @@ def gen_case(rng, variant=None, pin=None, allow_decoy=True):
         case["pts"] = [[a[0] for a in animals()] for _ in range(n_samples)]     # (S, I, 2)
     if variant in ("multi", "cent", "dp_cent"):
         case["num_instances"] = rng.choice([n_inst] * 7 + [max(n_inst - 1, 0)] * 2 + [n_inst + 2] * 2 + [0])
+    # DataPipes: the same generator OBJECT is iterated several times (one iter() per epoch), sometimes interleaved
+    if variant.startswith("dp_") and allow_decoy and rng.random() < 0.75:
+        case["history"] = {"passes": rng.choice([2, 2, 3]), "interleave": rng.random() < 0.35}
     # DataPipes: sometimes a second, different example travels through the same pipe object
     if variant.startswith("dp_") and allow_decoy and rng.random() < 0.35:
         case["decoy"] = gen_case(rng, variant, allow_decoy=False)
@@ -191,7 +195,18 @@ def dp_example(case, t):
     return {"image": img, "centroids": t, "num_instances": case["num_instances"]}
 
 
-def run_impl(case):
+DP_ATTRS = ("sigma", "output_stride", "centroids", "image_key", "instance_key")
+
+
+def run_history(case):
+    """Runs the case through the real code.  Returns a list of (label, result) — one entry per
+    observation, result = ('ok', ndarray) | ('raise', cls, msg).  Plain functions are one call.
+    A DataPipe case is a HISTORY over ONE generator object: `case["history"]["passes"]` passes, each
+    a fresh `iter()` (one per epoch in training); with `interleave` the second iterator is started
+    and exhausted while the first has only delivered its first example (torch then invalidates the
+    first one, which is abandoned).  Every pass is an observation
+    (the model is stateless: the same answer is required each time), and the object's public
+    attributes must be unchanged after each pass."""
     import torch
     from sleap_nn.data import confidence_maps as cmod
 
@@ -199,35 +214,102 @@ def run_impl(case):
     t = case_tensor(case)
     before = t.clone()
     kw = {} if case.get("defaults") else {"sigma": sg, "output_stride": s}
-    if v in ("cm3", "cm4"):
-        r = call(cmod.generate_confmaps, t, (H, W), **kw)
-    elif v == "multi":
-        r = call(cmod.generate_multiconfmaps, t, (H, W), case["num_instances"], **kw,
-                 **({} if case.get("defaults") else {"is_centroids": False}))
-    elif v == "cent":
-        r = call(cmod.generate_multiconfmaps, t, (H, W), case["num_instances"], **kw, is_centroids=True)
-    else:
-        exs = [dp_example(case, t)]
-        pos = 0
-        if case.get("decoy"):
-            d = dp_example(case["decoy"], case_tensor(case["decoy"]))
-            exs, pos = ([d] + exs, 1) if case.get("decoy_first") else (exs + [d], 0)
-        if v == "dp_cm":
-            dp, key = cmod.ConfidenceMapGenerator(exs, **kw), "confidence_maps"
-        elif v == "dp_cm_inst":
-            dp = cmod.ConfidenceMapGenerator(exs, **kw, image_key="instance_image", instance_key="instance")
-            key = "confidence_maps"
-        elif v == "dp_multi":
-            dp, key = cmod.MultiConfidenceMapGenerator(exs, **kw, centroids=False), "confidence_maps"
+
+    def canon(r):
+        if r[0] == "raise":
+            return r
+        if not torch.equal(torch.nan_to_num(before, nan=-12345.0), torch.nan_to_num(t, nan=-12345.0)):
+            return ("raise", "InputMutated", "input tensor was modified")
+        return ("ok", r[1].detach().cpu().numpy().copy())
+
+    if not v.startswith("dp_"):
+        if v in ("cm3", "cm4"):
+            r = call(cmod.generate_confmaps, t, (H, W), **kw)
+        elif v == "multi":
+            r = call(cmod.generate_multiconfmaps, t, (H, W), case["num_instances"], **kw,
+                     **({} if case.get("defaults") else {"is_centroids": False}))
         else:
-            dp = cmod.MultiConfidenceMapGenerator(exs, **kw, **({} if case.get("defaults") else {"centroids": True}))
-            key = "centroids_confidence_maps"
-        r = call(lambda: [e[key].clone() for e in list(dp)][pos])
-    if r[0] == "raise":
-        return r
-    if not torch.equal(torch.nan_to_num(before, nan=-12345.0), torch.nan_to_num(t, nan=-12345.0)):
-        return ("raise", "InputMutated", "input tensor was modified")
-    return ("ok", r[1].detach().cpu().numpy().copy())
+            r = call(cmod.generate_multiconfmaps, t, (H, W), case["num_instances"], **kw, is_centroids=True)
+        return [("call", canon(r))]
+
+    exs = [dp_example(case, t)]
+    pos = 0
+    if case.get("decoy"):
+        d = dp_example(case["decoy"], case_tensor(case["decoy"]))
+        exs, pos = ([d] + exs, 1) if case.get("decoy_first") else (exs + [d], 0)
+    if v == "dp_cm":
+        mk, key = (lambda: cmod.ConfidenceMapGenerator(exs, **kw)), "confidence_maps"
+    elif v == "dp_cm_inst":
+        mk = lambda: cmod.ConfidenceMapGenerator(exs, **kw, image_key="instance_image", instance_key="instance")
+        key = "confidence_maps"
+    elif v == "dp_multi":
+        mk, key = (lambda: cmod.MultiConfidenceMapGenerator(exs, **kw, centroids=False)), "confidence_maps"
+    else:
+        mk = lambda: cmod.MultiConfidenceMapGenerator(exs, **kw, **({} if case.get("defaults") else {"centroids": True}))
+        key = "centroids_confidence_maps"
+    r0 = call(mk)
+    if r0[0] == "raise":
+        return [("construct", r0)]
+    dp = r0[1]
+    attrs0 = {k: getattr(dp, k) for k in DP_ATTRS if hasattr(dp, k)}
+    hist = case.get("history") or {"passes": 1, "interleave": False}
+    obs = []
+
+    def attrs_check(label):
+        now = {k: getattr(dp, k) for k in attrs0 if hasattr(dp, k)}
+        if now != attrs0:
+            ch = {k: (attrs0[k], now.get(k)) for k in attrs0 if now.get(k) != attrs0[k]}
+            obs.append((label + " attributes", ("raise", "StateMutated",
+                                                f"public attributes of the generator object changed: {ch}")))
+
+    def drain(it):
+        return [e[key].clone() for e in it]
+
+    k = hist["passes"]
+    start = 0
+    if hist.get("interleave") and k >= 2:
+        # torch allows one live iterator per IterDataPipe: creating the second invalidates the first (continuing it
+        # raises RuntimeError by design), so the first pass is abandoned after its first example.
+        def both():
+            it1 = iter(dp)
+            first = next(it1)[key].clone()
+            second = drain(iter(dp))            # a whole second pass started while the first is suspended
+            return first, second
+        r = call(both)
+        if r[0] == "raise":
+            obs.append(("pass 1+2 (interleaved)", r))
+        else:
+            if pos == 0:
+                obs.append(("pass 1 (abandoned after its first example)", canon(("ok", r[1][0]))))
+            obs.append(("pass 2 (started while pass 1 was suspended)", canon(("ok", r[1][1][pos]))))
+        attrs_check("after the interleaved passes:")
+        start = 2
+    for n in range(start, k):
+        r = call(lambda: drain(iter(dp))[pos])
+        obs.append((f"pass {n + 1}", canon(r)))
+        attrs_check(f"after pass {n + 1}:")
+    return obs
+
+
+def run_impl(case):
+    """First observation only (plain call / first pass)."""
+    return run_history(case)[0][1]
+
+
+def first_oracle_failure(case, outputs_only=False):
+    """(label, why) of the first observation of the history on which the property itself fails
+    (wrong output / raise); a changed attribute is reported only when no output is wrong."""
+    state = None
+    for label, r in run_history(case):
+        if r[0] == "raise":
+            if r[1] == "StateMutated":
+                state = state or (label, f"{r[1]}: {r[2]}")
+                continue
+            return label, f"raised {r[1]}: {r[2]}"
+        why = oracle(case, r[1])
+        if why:
+            return label, why
+    return None if outputs_only else state
 
 
 # ------------------------------------------------------------------ model side
@@ -390,7 +472,8 @@ def case_size(case):
             flat.append(t)
     walk(case["pts"])
     nonint = sum(1 for p in flat for v in p if v is not None and v != round(v))
-    return (1 if case.get("decoy") else 0, len(flat), len(case["pts"]), case["H"] + case["W"], case["stride"],
+    hh = case.get("history") or {}
+    return (1 if case.get("decoy") else 0, hh.get("passes", 1) + (1 if hh.get("interleave") else 0), len(flat), len(case["pts"]), case["H"] + case["W"], case["stride"],
             0 if case["sigma"] == 1.0 else 1, nonint)
 
 
@@ -418,6 +501,12 @@ def shrink(case, still_fails):
             c = copy.deepcopy(cur); c["pts"] = c["pts"][:1]; cands.append(c)
         if cur.get("decoy"):
             c = copy.deepcopy(cur); c.pop("decoy"); c.pop("decoy_first", None); cands.insert(0, c)
+        if cur.get("history"):
+            hh = cur["history"]
+            if hh.get("interleave"):
+                c = copy.deepcopy(cur); c["history"]["interleave"] = False; cands.insert(0, c)
+            if hh["passes"] > 1:
+                c = copy.deepcopy(cur); c["history"]["passes"] -= 1; cands.insert(0, c)
         keys = (("H", [4, 8]), ("W", [4, 8])) + (() if cur.get("defaults") else (("stride", [1, 2]), ("sigma", [1.0])))
         for key, small in keys:
             for val in small:
@@ -447,7 +536,7 @@ def shrink(case, still_fails):
 # ------------------------------------------------------------------ main
 def case_key(case):
     return (case["variant"], case["H"], case["W"], case["stride"], case["sigma"],
-            case.get("num_instances"), repr(case["pts"]))
+            case.get("num_instances"), repr(case["pts"]), repr(case.get("history")))
 
 
 def nontrivial(case):
@@ -468,6 +557,8 @@ def tags_of(case):
         t.append("no_points")
     if case.get("decoy"):
         t.append("dp_two_examples")
+    if case.get("history"):
+        t.append(f"dp_history_{case['history']['passes']}_passes" + ("_interleaved" if case["history"].get("interleave") else ""))
     if case.get("defaults"):
         t.append("default_arguments")
     if max(case["H"], case["W"]) > 64:
@@ -480,35 +571,50 @@ def tags_of(case):
 
 
 def check_case(chk, case, model_replies):
-    """Correspondence + oracle for one case.  Returns True when something was reported."""
-    r = run_impl(case)
+    """Correspondence + oracle for every observation of the case's history.  Returns True when
+    something was reported."""
     reported = False
-    if r[0] == "raise":
-        chk.disagree("confidence maps: implementation raised where the model does not", case, list(r), "ok")
-        chk.fail(f"C01: implementation raised {r[1]}: {r[2]}", case, list(r), ())
-        return True
-    out = r[1]
-    if model_replies is not None:
-        reps = split_reply(model_replies[0])
-        if out.ndim != 4 or out.shape[0] != len(reps):
-            chk.disagree("generate_*confmaps batch size", case, list(out.shape), len(reps))
+    failing = None      # wrong output / raise
+    state = None        # public attribute changed
+    for label, r in run_history(case):
+        tag = "" if label == "call" else f"[{label}] "
+        if r[0] == "raise":
+            chk.disagree("confidence maps: implementation raised / changed state where the model does not",
+                         case, [label] + list(r), "ok")
+            if r[1] == "StateMutated":
+                state = state or (label, f"{r[1]}: {r[2]}")
+            else:
+                failing = failing or (label, f"raised {r[1]}: {r[2]}")
             reported = True
-        else:
-            for b, line in enumerate(reps):
-                why = compare(chk, case, b, out[b], parse_model(line))
-                if why:
-                    chk.disagree("generate_*confmaps == Confmaps model", case, f"sample {b}: {why}", "see case")
-                    reported = True
-                    break
-    why = oracle(case, out)
-    if why:
-        def still(c):
-            rr = run_impl(c)
-            return rr[0] == "ok" and oracle(c, rr[1]) is not None
-        small = shrink(case, still)
-        rr = run_impl(small)
-        chk.fail("C01 fails on the implementation: " + (oracle(small, rr[1]) or why), small,
-                 {"original_case": case, "why_original": why}, ())
+            continue
+        out = r[1]
+        if model_replies is not None:
+            reps = split_reply(model_replies[0])
+            if out.ndim != 4 or out.shape[0] != len(reps):
+                chk.disagree("generate_*confmaps batch size", case, [label] + list(out.shape), len(reps))
+                reported = True
+            else:
+                for b, line in enumerate(reps):
+                    why = compare(chk, case, b, out[b], parse_model(line))
+                    if why:
+                        chk.disagree("generate_*confmaps == Confmaps model (stateless: every pass)", case,
+                                     f"{tag}sample {b}: {why}", "see case")
+                        reported = True
+                        break
+        why = oracle(case, out)
+        if why and failing is None:
+            failing = (label, why)
+    if failing:
+        small = shrink(case, lambda c: first_oracle_failure(c, outputs_only=True) is not None)
+        f2 = first_oracle_failure(small, outputs_only=True) or failing
+        chk.fail(f"C01 fails on the implementation ({f2[0]}): {f2[1]}", small,
+                 {"original_case": case, "why_original": f"{failing[0]}: {failing[1]}"}, ())
+        reported = True
+    elif state:
+        small = shrink(case, lambda c: first_oracle_failure(c) is not None)
+        f2 = first_oracle_failure(small) or state
+        chk.fail(f"C01: the generator object keeps state between passes ({f2[0]}): {f2[1]}", small,
+                 {"original_case": case}, ())
         reported = True
     return reported
 
@@ -555,6 +661,17 @@ def main(chk: Check):
          "pts": [[[[1.0, 1.0]], [[6.0, 1.0]]], [[[1.0, 6.0]], [[6.0, 6.0]]]]},
         {"variant": "cent", "H": 8, "W": 8, "stride": 1, "sigma": 1.0, "num_instances": 2,
          "pts": [[[1.0, 1.0], [6.0, 1.0]], [[1.0, 6.0], [6.0, 6.0]]]},
+        # histories over one DataPipe object: 3 passes, and 2 interleaved passes with two examples in the pipe
+        {"variant": "dp_cm", "H": 8, "W": 8, "stride": 2, "sigma": 1.5, "n_nodes": 2,
+         "history": {"passes": 3, "interleave": False}, "pts": [[[[2.0, 2.0], [5.0, 6.0]]]]},
+        {"variant": "dp_cent", "H": 16, "W": 16, "stride": 4, "sigma": 1.0, "num_instances": 2,
+         "history": {"passes": 3, "interleave": True}, "pts": [[[4.0, 4.0], [12.0, 9.0]]],
+         "decoy": {"variant": "dp_cent", "H": 8, "W": 12, "stride": 4, "sigma": 1.0, "num_instances": 1,
+                   "pts": [[[3.0, 3.0]]]}, "decoy_first": False},
+        {"variant": "dp_multi", "H": 12, "W": 12, "stride": 2, "sigma": 0.5, "n_nodes": 1,
+         "history": {"passes": 2, "interleave": True}, "pts": [[[[3.0, 3.0]], [[8.0, 9.0]]]]},
+        {"variant": "dp_cm_inst", "H": 8, "W": 8, "stride": 4, "sigma": 2.5,
+         "history": {"passes": 2, "interleave": False}, "pts": [[[1.0, 6.0], [None, None]]]},
         # large frame / large stride / far-away keypoint / small and large continuous sigma
         {"variant": "cm3", "H": 1024, "W": 768, "stride": 32, "sigma": 0.73, "pts": [[[511.5, 300.25], [-5000.0, 12.0]]]},
         {"variant": "cm3", "H": 64, "W": 64, "stride": 16, "sigma": 0.05, "pts": [[[16.0, 32.0], [17.0, 33.0]]]},
@@ -585,11 +702,8 @@ def main(chk: Check):
             for _ in range(20):
                 extra.append(gen_case(rng, bc["variant"], pin={k: bc[k] for k in ("H", "W", "stride", "sigma")}))
         for case in extra:
-            r = run_impl(case)
-            if r[0] != "ok":
-                continue
             chk.evaluations += 1
-            if oracle(case, r[1]):
+            if first_oracle_failure(case):
                 check_case(chk, case, None)
                 break
 
@@ -599,9 +713,10 @@ def replay(chk: Check, payload):
     case = payload.get("case") or payload["disagreements"][0]["case"]
     rep = run_driver("C01.lean", model_lines(case))
     chk.case(case_key(case))
-    r = run_impl(case)
-    print(f"replay case={case}\n impl={'raise ' + str(r[1:]) if r[0] == 'raise' else 'shape ' + str(r[1].shape)}"
-          f"\n oracle={oracle(case, r[1]) if r[0] == 'ok' else None}")
+    print(f"replay case={case}")
+    for label, r in run_history(case):
+        print(f" [{label}] impl={'raise ' + str(r[1:]) if r[0] == 'raise' else 'shape ' + str(r[1].shape)}"
+              f" oracle={oracle(case, r[1]) if r[0] == 'ok' else None}")
     check_case(chk, case, rep)
 
 
@@ -621,7 +736,9 @@ if __name__ == "__main__":
             "torch.arange/reshape/view/broadcast/maximum index semantics (validated by the correspondence)",
         ],
         rule="8 entry points (generate_confmaps rank 3/4, generate_multiconfmaps, centroid variant, the two DataPipe classes in 4 "
-             "configurations; DataPipes also with a second, different example in the same pipe and with n_samples = 2; every "
+             "configurations; DataPipe cases are HISTORIES over one generator object: 1-3 passes (fresh iter() each, 35% with the second "
+             "pass interleaved into the first), every pass compared with the stateless model and the oracle, public attributes "
+             "asserted unchanged; DataPipes also with a second, different example in the same pipe and with n_samples = 2; every "
              "entry point once with default sigma/output_stride) x n_samples {1,2} x H,W in 1..64 and 33..1024 for stride >= 16 "
              "x stride {1,2,4,8,16,32} x sigma {.5,1,1.5,2.5,5} (60%) or log-uniform in [0.05,20] (40%) x 0-4 animals x 1-5 "
              "nodes x coordinates on the k/16 lattice inside/on/outside the border, up to +-10 image sizes away (+6% arbitrary "
